@@ -413,6 +413,10 @@ def corpus():
                     ['close', 0], ['seg', 2, [c(1), a(10), f(0)]], ['seg', 1, [f(0), c(1), a(3)]]]),
         loops_case(dict(max_batch_size=2), [['seg', 0, LOOP_SCRIPT], ['seg', 1, LOOP_SCRIPT], ['seg', 2, LOOP_SCRIPT]],
                    par=True),
+        # successively AND concurrently: loop 0 used, closed and kept referenced; then two fresh loops make their
+        # first call at the same time in two threads (the harness lines them up inside is_closed() of loop 0)
+        loops_case(dict(max_batch_size=2), [['seg', 0, LOOP_SCRIPT], ['close', 0], ['seg', 1, LOOP_SCRIPT],
+                                            ['seg', 2, LOOP_SCRIPT]], par=True),
     ]
     return out
 
@@ -503,6 +507,12 @@ def gen_exhaustive(tier, seed):
         out.append(loops_case(cfg, sc3))
         for n in (2, 3):
             out.append(loops_case(cfg, [['seg', l, LOOP_SCRIPT] for l in range(n)], par=True))
+            # one / two loops used and closed first (kept referenced), then n fresh loops at once
+            for form in ('deco', 'direct'):
+                out.append(loops_case(cfg, [['seg', 0, LOOP_SCRIPT], ['close', 0]] +
+                                      [['seg', l, LOOP_SCRIPT] for l in range(1, n + 1)], form=form, par=True))
+            out.append(loops_case(cfg, [['seg', 0, LOOP_SCRIPT], ['seg', 1, [c(1), a(60), f(0)]], ['close', 0], ['close', 1]] +
+                                  [['seg', l, LOOP_SCRIPT] for l in range(2, n + 2)], par=True))
     return out
 
 
@@ -708,7 +718,9 @@ RULE = ('cases = one scripted event list (virtual time, harness-owned batch / bu
         'a cyclic-GC pass is forced before every call that finds the batcher idle (a weakly held batcher would be rebuilt); '
         'per-loop registry — 1..3 loops one after '
         'another (closed before the next / left open), every interleaving of two loops\' three segments, 3 loops round '
-        'robin, 2..3 loops in real threads at once.  random layer: random configurations, scripts, two-function merges and loop plans.  '
+        'robin, 2..3 loops in real threads at once, and 1..2 loops used + closed (kept referenced) followed by 2..3 fresh loops '
+        'whose first calls are lined up in real threads (harness-owned is_closed() of the closed loops parks a worker thread '
+        'until all workers have inspected it).  random layer: random configurations, scripts, two-function merges and loop plans.  '
         'non-trivial (Case_C15.nontrivial) = something was dispatched/flushed/invoked and, when an option is set, the '
         'reference trace for the configuration differs from the reference trace of the default configuration (the '
         'script separates "option honoured" from "option dropped"); loops: at least two loops ran batches; two-function '
